@@ -21,7 +21,7 @@ _Bool nondet_bool(void);
 
 /* Upper bound on symbolic lengths: keeps pointer offsets representable in CBMC's object/offset
    encoding; it is not an unwinding bound (loops are closed by loop contracts). */
-#define TJV_MAXLEN ((size_t)0x0fffffff)
+#define TJV_MAXLEN ((size_t)1 << 40)
 
 /* witness variables: show up in counterexample traces (prefix tjw_) */
 #define TJW_BYTES(dst, ptr, len, n) do { for (unsigned _i = 0; _i < (n); _i++) if (_i < (len)) (dst)[_i] = (ptr)[_i]; } while (0)
